@@ -1256,7 +1256,7 @@ func main() {
 	lz := leadingZeroHistories(!cfg.Thorough() && !cfg.Search)
 	rep.Extra["leading_zero_child_histories"] = len(lz)
 	for hi, h := range lz {
-		runAndRecord(h, "leading_zero_child", !cfg.Search && hi < 2, true)
+		runAndRecord(h, "leading_zero_child", !cfg.Search && hi < 4, true) // one and two zero bytes, hardened and normal, of the first seed
 		runAndRecord(h, "leading_zero_child_shallow", false, false)
 	}
 	for _, h := range fixedHistories() {
